@@ -45,6 +45,9 @@ structure Fields where
   modeHigh : Nat
   first : Block
   more : List Block
+  /-- index of the first sample of the first block: 0 for a complete file, larger for a stream that was cut out of one
+  (the header's total then still counts the original file; the samples present are those of the blocks) -/
+  firstIndex : Nat := 0
 
 def Block.OK (b : Block) : Prop :=
   b.samples < 2 ^ 32 ∧ b.payload.length + 24 < 2 ^ 32 ∧ b.crc < 2 ^ 32
@@ -72,6 +75,20 @@ instance (h : Fields) : Decidable h.OK := by
 /-- what mutagen can represent: the sample count fits the 32-bit field (below the all-ones value) -/
 def Fields.fits32 (h : Fields) : Prop := ∀ t, h.totalSamples = some t → t < 2 ^ 32 - 1
 
+instance (h : Fields) : Decidable h.fits32 := by
+  unfold Fields.fits32
+  cases h.totalSamples with
+  | none => exact isTrue (by intro t ht; cases ht)
+  | some v =>
+    by_cases hv : v < 2 ^ 32 - 1
+    · exact isTrue (by intro t ht; cases ht; exact hv)
+    · exact isFalse (fun hh => hv (hh v rfl))
+
+/-- what mutagen can see of the first block's index: a non-zero 40-bit index whose low 32 bits are 0 looks like 0 -/
+def Fields.indexFits (h : Fields) : Prop := h.firstIndex = 0 ∨ h.firstIndex % 2 ^ 32 ≠ 0
+
+instance (h : Fields) : Decidable h.indexFits := by unfold Fields.indexFits; infer_instance
+
 def flags (h : Fields) : Nat :=
   (h.bytesPerSample - 1) + 4 * (if h.mono then 1 else 0) + 8 * h.modeLow + 2 ^ 11 + 2 ^ 12 +
     2 ^ 13 * h.shiftMag + 2 ^ 23 * h.rateIndex + 2 ^ 27 * h.modeHigh
@@ -93,17 +110,24 @@ def buildBlocks (h : Fields) : Nat → List Block → Bytes
   | _, [] => []
   | idx, b :: bs => buildBlock h idx b ++ buildBlocks h (idx + b.samples) bs
 
-def build (h : Fields) : Bytes := buildBlocks h 0 (h.first :: h.more)
+def build (h : Fields) : Bytes := buildBlocks h h.firstIndex (h.first :: h.more)
 
 /-- what follows the last block is not another block header -/
 def NoHeader (rest : Bytes) : Prop := rest.length < 32 ∨ readAt rest 0 4 ≠ [0x77, 0x76, 0x70, 0x6b]
 
+instance (rest : Bytes) : Decidable (NoHeader rest) := by unfold NoHeader; infer_instance
+
+/-- the blocks have to be counted: the total is unknown, or the stream does not start at sample 0 -/
+def Fields.counted (h : Fields) : Prop := h.totalSamples = none ∨ h.firstIndex ≠ 0
+
+instance (h : Fields) : Decidable h.counted := by unfold Fields.counted; infer_instance
+
 def rate (h : Fields) : Nat := Spec.Tables.wavpackRates.getD h.rateIndex 0
 
 def samples (h : Fields) : Nat :=
-  match h.totalSamples with
-  | some t => t
-  | none => ((h.first :: h.more).map (·.samples)).sum
+  match h.totalSamples, h.firstIndex with
+  | some t, 0 => t
+  | _, _ => ((h.first :: h.more).map (·.samples)).sum
 
 def expected (h : Fields) : WavPack.Info :=
   { version := h.version, channels := if h.mono then 1 else 2, sampleRate := rate h,
